@@ -3762,9 +3762,13 @@ impl Lexer<'_> {
         // Start the new token
         self.start_token();
 
-        // Consume the ending
-        #[allow(clippy::cast_possible_truncation)]
-        self.cursor.advance_by(ending_len as u32);
+        // Consume the ending. Only the terminator characters that are really there:
+        // an unterminated block (reported above) must not swallow the text that follows
+        for _ in 0..ending_len {
+            if !self.cursor.eat_char(';') {
+                break;
+            }
+        }
 
         // Add the datalines end token
         self.emit_token(TokenChannel::DEFAULT, TokenType::SEMI, Payload::None);
